@@ -362,6 +362,13 @@ pub fn op_resolve<B: Be>(mut doc: B, p: &Pointer, mutable: bool) -> String {
             _ => law_fwd.fail("pointer_method_gives_a_different_outcome"),
         }
     }
+    // "for every node of every document the pointer built from its path resolves to that node" — with the pointers built
+    // through the crate's own builders (small documents only: the law visits every node)
+    let mut law_nodes = Law::new();
+    if !mutable && doc.to_doc().print().len() <= 400 {
+        law_nodes.res(nodes_law(&doc));
+    }
+    o.law("law_nodes", &law_nodes);
     o.law("law_walk", &law_walk);
     o.law("law_locate", &law_locate);
     o.law("law_mut_same", &law_mut_same);
@@ -748,6 +755,27 @@ fn nodes_law<B: Be>(doc: &B) -> Result<(), String> {
             match s {
                 Step::K(k) => buf.push_back(Token::new(k.as_str())),
                 Step::I(i) => buf.push_back(Token::from(*i)),
+            }
+        }
+        if path.len() == 1 {
+            // the other public ways of building a one-token pointer from a key / an index must address the same node
+            let alts: Vec<(&str, PointerBuf)> = match &path[0] {
+                Step::K(k) => vec![
+                    ("from_token", PointerBuf::from(Token::new(k.as_str()))),
+                    ("from_tokens", PointerBuf::from_tokens([k.as_str()])),
+                    ("with_trailing_token", Pointer::root().with_trailing_token(k.as_str())),
+                    ("with_leading_token", Pointer::root().with_leading_token(k.as_str())),
+                ],
+                Step::I(i) => vec![("from_usize", PointerBuf::from(*i)), ("from_tokens", PointerBuf::from_tokens([*i]))],
+            };
+            for (name, alt) in alts {
+                match guard(|| doc.resolve(&alt).map(|r| r as *const B)) {
+                    Some(Ok(addr)) if std::ptr::eq(addr, node as *const B) => {}
+                    _ => {
+                        res = Err(format!("pointer_built_by_{name}_does_not_address_{}", loc(path)));
+                        return false;
+                    }
+                }
             }
         }
         match guard(|| doc.resolve(&buf).map(|r| r as *const B)) {
